@@ -67,7 +67,7 @@ pub fn run(_seed: u64, replay: Option<String>) -> Outcome {
     for m in [2u32, 3, 4, 6, 7, 12] {
         for x in -(m as i64) - 1..=2 * m as i64 {
             for y in -1..=m as i64 + 1 {
-                for d in [0u64, 1, 2, 5] {
+                for d in [0u64, 1, 2, 5, 7, 22, m as u64, m as u64 + 1, 2 * m as u64 - 1, u64::MAX, u64::MAX - 1] {
                     cases += 1;
                     if let Some(c) = check(m, x, y, d) { return Outcome { cex: Some(c), cases }; }
                 }
